@@ -72,6 +72,10 @@ type FS struct {
 	tmpCount  int
 	cwd       string // simulated working directory ("" = "/")
 	Quiet     bool   // do not emit trace events (used while building the initial tree)
+	// NoYield: calls neither count as steps nor yield to the scheduler.  For
+	// code under test that reads the file from a goroutine of its own (the lzma
+	// decoder): such calls do not come from a simulated task.
+	NoYield bool
 
 	// AfterOp, when set, runs after every recorded call (the harness checks
 	// its invariants at every instant of the file-system history here).
@@ -298,7 +302,7 @@ func enter(op, p, p2 string) (*gate, error) {
 		g.refused = true
 		return g, &fs.PathError{Op: op, Path: p, Err: syscall.EIO}
 	}
-	if r != nil {
+	if r != nil && !f.NoYield {
 		r.Tick()
 		r.Yield("fs")
 	}
